@@ -20,6 +20,12 @@
 (* Deviation "release_per_handle" is the behaviour of the pinned upstream   *)
 (* code before the fix (task/mod.rs:54-73: `drop` and `wake` released the   *)
 (* inner waker on *every* handle, CRawWaker had no Drop).                   *)
+(*                                                                          *)
+(* What an "original" is, is the caller's business: any valid RawWaker.     *)
+(* The adapter polls with three shapes of it - an Arc waker, a borrowed     *)
+(* view whose clone() is not a bitwise copy, and one whose data pointer is  *)
+(* NULL with its state in a static; clone / wake / release of the inner     *)
+(* clone are owed to each of them alike.                                    *)
 (***************************************************************************)
 EXTENDS Integers, Sequences, FiniteSets
 
